@@ -1022,3 +1022,76 @@ class SetItem(Contract):
 
 def MaybeCastTable(old, new):
     return ix.MaybeCastType.expected(old, new)
+
+
+class SetItemNative(Contract):
+    """BOUNDED STAND-IN ONLY (never counted as proved).  Two assignment forms the symbolic SetItem contract covers with scalar
+    values only: (1) a[mask] = v for a FULL N-d boolean mask and an ARRAY v with one value per true cell (NumPy fills the
+    true cells in row-major order); (2) a[l0:l1] = v (inclusive label slice, optionally with a second index) and an ARRAY v
+    of the selection's shape.  Checked on the real code: exactly the cells the same index reads are changed, reading the
+    index back returns v, every other cell, the labels and the metadata are untouched; inplace=False leaves the operand
+    alone.  Ranks 1-2, extents 1-3, every mask / slice bound of the family.  [C03]"""
+    target = "dimarray.core.bases:AbstractHasAxes._setitem"
+    props = ("C03",)
+    native_only = True
+
+    def cases(self, tier):
+        for form in ("ndmask-array", "label-slice-array"):
+            for rank in (1, 2):
+                for inplace in (True, False):
+                    yield {"name": "%s-r%d-%s" % (form, rank, "inplace" if inplace else "copy"), "form": form, "rank": rank, "inplace": inplace}
+
+    def setup(self, S, case):
+        from .common import assume_order
+        rank = case["rank"]
+        labels = []
+        for d in range(rank):
+            L = S.array1d("lab%d" % d, "f")
+            assume_order(S, L, "inc" if case["form"] == "label-slice-array" and d == 0 else "unique")
+            S.assume(S.n(L) >= 1, "non-empty")
+            labels.append(L)
+        data = S.arraynd("data", "f", tuple(S.n(L) for L in labels))
+        env = {"labels": labels, "data": data}
+        if case["form"] == "ndmask-array":
+            env["mask"] = S.arraynd("mask", "b", tuple(S.n(L) for L in labels))
+        else:
+            env["lo"], env["hi"] = S.real("lo"), S.real("hi")
+        return env
+
+    def call(self, fn, env):
+        import numpy as np
+        S, case = env["S"], env["case"]
+        labels = [np.asarray(L, dtype=float) for L in env["labels"]]
+        a = S.da.DimArray(np.array(env["data"], dtype=float), axes=[("x%d" % d, L.copy()) for d, L in enumerate(labels)])
+        a.attrs["units"] = "K"
+        before = a.values.copy()
+        if case["form"] == "ndmask-array":
+            mask = np.asarray(env["mask"], dtype=bool)
+            sel = mask
+            key = mask
+        else:
+            lo, hi = float(env["lo"]), float(env["hi"])
+            m0 = (labels[0] >= lo) & (labels[0] <= hi)
+            sel = np.zeros(before.shape, dtype=bool)
+            sel[m0] = True
+            key = slice(lo, hi)
+        count = int(sel.sum())
+        v = 1000.0 + np.arange(count, dtype=float)
+        if case["form"] == "label-slice-array":
+            v = v.reshape((int(m0.sum()),) + before.shape[1:])
+        env.update({"a": a, "before": before, "sel": sel, "v": v, "key": key})
+        if case["inplace"]:
+            a[key] = v
+            return a
+        return a.put(key, v, inplace=False) if case["form"] == "label-slice-array" else a.put(key, v, inplace=False)
+
+    def post(self, S, case, env, result):
+        import numpy as np
+        a, before, sel, v = env["a"], env["before"], env["sel"], env["v"]
+        same = lambda x, y: np.asarray(x).shape == np.asarray(y).shape and bool(np.all((np.asarray(x) == np.asarray(y)) | (np.isnan(np.asarray(x, dtype=float)) & np.isnan(np.asarray(y, dtype=float)))))
+        yield "is-dimarray", S.is_dimarray(result)
+        yield "addressed-cells-hold-the-values-in-selection-order", same(result.values[sel], np.asarray(v).ravel())
+        yield "every-other-cell-untouched", same(result.values[~sel], before[~sel])
+        yield "labels-dims-metadata-untouched", tuple(result.dims) == tuple(a.dims) and all(same(r.values, o) for r, o in zip(result.axes, [np.asarray(L, dtype=float) for L in env["labels"]])) and dict(result.attrs) == {"units": "K"}
+        if not case["inplace"]:
+            yield "operand-left-unchanged", same(a.values, before) and result is not a
